@@ -413,6 +413,10 @@ pub mod sym {
     pub fn witness() -> Option<Vec<(String, String)>> {
         with(|s| solve_nice(s, &[]))
     }
+    /// ... that additionally satisfy `extra` (boundary witnesses)
+    pub fn witness_with(extra: &[Bool]) -> Option<Vec<(String, String)>> {
+        with(|s| solve_nice(s, extra))
+    }
 
     /// End this path: count the leaf and leave the process without running destructors.
     pub fn leaf_exit() -> ! {
